@@ -50,6 +50,26 @@ let handle (line : string) : string =
   | "EI" -> let m = next_q () in let h = next_q () in string_of_z (erode_iterations m h)
   | "BI" -> let m = next_q () in let p = next_q () in let e = next_q () in
       string_of_z (buffer_iterations_asis m p) ^ " " ^ string_of_z (buffer_iterations_fixed m p e)
+  | "MD" ->   (* MD ego n {vd cam rad reqvis observer}*n {k {target upper}*k}*n i j *)
+      let ego = nat_of_int (next_int ()) in
+      let n = next_int () in
+      let rec rdo k = if k <= 0 then [] else
+        let vd = next_oq () in let cam = next_oq () in let rad = next_oq () in
+        let rv = next () = "1" in
+        let ob = (match next () with "None" -> None | t -> Some (nat_of_int (int_of_string t))) in
+        let o = { vd_up = vd; cam_hyp = cam; rad_up = rad; req_vis = rv; observer = ob } in o :: rdo (k - 1) in
+      let objs = rdo n in
+      let rec rdr k = if k <= 0 then [] else
+        let m = next_int () in
+        let rec rr m = if m <= 0 then [] else let t = nat_of_int (next_int ()) in let u = next_oq () in (t, u) :: rr (m - 1) in
+        let l = rr m in l :: rdr (k - 1) in
+      let rels = rdr n in
+      let i = nat_of_int (next_int ()) in let j = nat_of_int (next_int ()) in
+      let show = function EInf -> "INF" | EErr -> "ERR" | EFin q -> sq q in
+      show (max_distance_between false ego objs rels i j) ^ " " ^ show (max_distance_between true ego objs rels i j)
+  | "RO" ->   (* RO pi lo hi lowerBound upperBound -> asis fixed *)
+      let pi = next_q () in let lo = next_q () in let hi = next_q () in let lb = next_q () in let ub = next_q () in
+      (if rh_overlap (lo, hi) lb ub then "1" else "0") ^ " " ^ (if rh_overlap_fixed pi (lo, hi) lb ub then "1" else "0")
   | "VB" -> let a = next_q () in let b = next_q () in let c = next_q () in sq (visibility_bound a b c)
   | s -> failwith ("cmd " ^ s)
 
